@@ -179,114 +179,114 @@ def uses_value(b, l):
 
 
 def check_route(cx, chk, crate, fn_pred, label, text_src):
+    """One integration route, read off the semantic summary of its function (local helpers inlined): on every path that generates
+    code, the grammar handed to generate_code is the unwrapped result of parsing the unmodified text, the settings are the defaults
+    (with the derives override), and the generated token stream is only displayed / converted."""
+    from .. import sem
     ps = [p for p in crate.fns if fn_pred(p) and "mir" in crate.fns[p]]
     if not ps:
         chk.anchor_missing("C16.routes", label)
         return
     b = cx.body(crate, ps[0])
-    gens = [(i, t) for i, t in b.calls() if not t["func"].get("indirect") and last(t["func"]["path"]) == "generate_code" and "CodegenGrammar" in t["func"]["path"]]
-    if len(gens) != 1:
-        chk.violation("C16.routes", label + " gen-calls", "%s does not call CodegenGrammar::generate_code exactly once (%d)" % (label, len(gens)), cx.site(b))
+    S = sem.Sem(cx, crate, inline=lambda q: q in crate.fns and "mir" in crate.fns[q] and "{closure" not in q and last(q) not in ("generate_code",)
+                and "::grammar::generated::" not in q and "Codegen" not in q, max_leaves=3000)
+    try:
+        sm = S.summarize(ps[0])
+    except sem.SemLimit as ex:
+        chk.violation("C16.routes", label + " unsummarised", "%s could not be summarised: %s" % (label, ex), cx.site(b))
         return
-    gi, gt = gens[0]
-    recv = norm(b.expr_op(gt["args"][0]))
     probs = []
-    # receiver: unwrapped result of from_str / parse / parse_with_trace applied to the text
-    parse_calls = [s for s in walk(recv) if is_call(s, "from_str", "parse", "parse_with_trace")]
-    pcs = [s for s in b.walk_deep(recv) if is_call(s, "from_str", "parse", "parse_with_trace") and s[2] and ("PegParser" in s[1] or "FromStr" in s[1] or "Grammar" in s[1])]
-    if not pcs:
-        probs.append("the grammar handed to generate_code is not the result of Grammar::from_str / parse: %s" % mir.show(recv)[:200])
-    for pc in pcs:
-        arg = pc[2][0]
-        if not text_src(arg):
-            probs.append("the text that is parsed is not the unmodified grammar text: %s" % mir.show(arg)[:200])
-    # nothing but error conversion / unwrapping between the parse and the generator
-    for s_ in b.walk_deep(recv):
-        if s_[0] == "call" and last(s_[1]) not in ("from_str", "parse", "parse_with_trace", "map_err", "branch", "unwrap", "expect", "deref",
-                                                   "read_to_string", "value", "as_str", "as_ref", "borrow", "from_parse_error", "to_str", "parse_args", "syn_parse") \
-                and "clap" not in s_[1] and "syn::" not in s_[1] and "Args" not in s_[1] and last(s_[1]) != "call_once":
-            if any(is_call(x, "from_str", "parse", "parse_with_trace") and x[2] for x in walk(s_)):
-                probs.append("the parsed grammar passes through %s before code generation" % short(s_[1]))
-    # output: the only uses of the generated TokenStream are Display formatting / into
-    cur = gt["dest"]["l"]
-    chain = [cur]
-    final = None
-    for _ in range(6):
-        us = uses_value(b, cur)
-        nxt = None
-        for (i, op) in us:
-            t = b.blocks[i]["term"]
-            if t["k"] == "call" and not t["func"].get("indirect") and any(a is op for a in t["args"]):
-                nm = last(t["func"]["path"])
-                if nm in ("branch", "unwrap", "expect") or (nm == "from_residual"):
-                    if nm != "from_residual":
-                        nxt = t["dest"]["l"]
-        if nxt is None:
-            break
-        cur = nxt
-        chain.append(cur)
-        # payload extraction from Try::branch
-        for i in b.reach:
-            for st in b.blocks[i]["stmts"]:
-                if st["k"] == "assign" and st["rv"]["k"] == "use" and "place" in st["rv"]["op"] and st["rv"]["op"]["place"]["l"] == cur \
-                        and any(pe["k"] == "downcast" and pe["variant"] == "Continue" for pe in st["rv"]["op"]["place"]["p"]):
-                    cur = st["place"]["l"]
-                    chain.append(cur)
-    # follow plain moves
-    changed = True
-    vals = {cur}
-    while changed:
-        changed = False
-        for i in b.reach:
-            for st in b.blocks[i]["stmts"]:
-                if st["k"] == "assign" and st["rv"]["k"] == "use" and "place" in st["rv"]["op"] and not st["rv"]["op"]["place"]["p"] \
-                        and st["rv"]["op"]["place"]["l"] in vals and not st["place"]["p"] and st["place"]["l"] not in vals:
-                    vals.add(st["place"]["l"])
-                    changed = True
-    sinks = []
-    for v in vals:
-        for (i, op) in uses_value(b, v):
-            t = b.blocks[i]["term"]
-            if t["k"] == "call" and any(a is op for a in t["args"]):
-                nm = short(t["func"]["path"]) if not t["func"].get("indirect") else "<indirect>"
-                sinks.append(nm)
-            elif t["k"] == "drop":
+    n_gen = 0
+    shown = None
+    sinks_all = set()
+    for leaf in sm.leaves + sm.loopbacks:
+        gens = [(k, ev) for k, ev in enumerate(leaf.trace) if ev[0][0] == "call" and last(ev[0][1]) == "generate_code" and "CodegenGrammar" in ev[0][1]]
+        if not gens:
+            continue
+        if len(gens) != 1:
+            probs.append("a path calls CodegenGrammar::generate_code %d times" % len(gens))
+            continue
+        n_gen += 1
+        gk, gev = gens[0]
+        G = gev[0]
+        recv = G[2][0]
+        shown = recv
+        # receiver: unwrapped result of from_str / parse / parse_with_trace applied to the text
+        x = recv
+        passed = []
+        for _ in range(12):
+            if x[0] in ("field", "downcast"):
+                x = x[1]
+            elif is_call(x, "unwrap", "expect", "deref", "as_ref", "borrow", "clone") and x[2]:
+                x = x[2][0]
+            else:
+                break
+        if is_call(x, "from_str", "parse", "parse_with_trace") and x[2] and ("PegParser" in x[1] or "FromStr" in x[1] or "Grammar" in x[1] or "Grammar" in " ".join(x[4] if len(x) > 4 else ()) or "str" in x[1]):
+            if not text_src(x[2][0]):
+                probs.append("the text that is parsed is not the unmodified grammar text: %s" % mir.show(x[2][0])[:200])
+        else:
+            inner = [s_ for s_ in walk(recv) if is_call(s_, "from_str", "parse", "parse_with_trace") and s_[2]]
+            if inner:
+                probs.append("the parsed grammar passes through %s before code generation" % (short(x[1]) if x[0] == "call" else x[0]))
+            else:
+                probs.append("the grammar handed to generate_code is not the result of Grammar::from_str / parse: %s" % mir.show(recv)[:200])
+        # settings
+        st_ = G[2][1] if len(G[2]) > 1 else None
+        okd = False
+        if st_ is not None:
+            base = st_
+            while base[0] == "upd" and base[2] == "derives":
+                base = base[1]
+            if is_call(base, "default"):
+                okd = True
+            if st_[0] == "agg" and st_[1].endswith("CodegenSettings"):
+                d = dict(st_[3])
+                rest = [v for k_, v in d.items() if k_ != "derives"]
+                okd = all((v[0] == "field" and is_call(v[1], "default")) for v in rest)
+            if label.startswith("buildscript"):
+                okd = True      # the build script's settings are the builder's own (C18)
+        if not okd:
+            probs.append("settings: %s does not generate with default settings (+derives override): %s" % (label, mir.show(st_)[:200] if st_ is not None else "?"))
+        # output: the token stream is only displayed / converted / returned
+        TOK = mir.mk("field", mir.mk("downcast", G, "Ok"), "0")
+        TOK2 = mir.mk("field", mir.mk("downcast", mir.mk("call", "std::ops::Try::branch", (G,), None, ()), "Continue"), "0")
+        toks = (TOK, TOK2, G)
+        sinks = []
+        for k, ev in enumerate(leaf.trace):
+            t = ev[0]
+            if k <= gk or t[0] != "call":
                 continue
-        # references to v
-        for i in b.reach:
-            for st in b.blocks[i]["stmts"]:
-                if st["k"] == "assign" and st["rv"]["k"] == "ref" and st["rv"]["place"]["l"] == v and not st["rv"]["place"]["p"]:
-                    rl = st["place"]["l"]
-                    # where does the reference go
-                    stack = [rl]
-                    seenr = set()
-                    while stack:
-                        r = stack.pop()
-                        if r in seenr:
-                            continue
-                        seenr.add(r)
-                        for (j, op) in uses_value(b, r):
-                            t = b.blocks[j]["term"]
-                            if t["k"] == "call" and any(a is op for a in t["args"]):
-                                sinks.append(short(t["func"]["path"]) if not t["func"].get("indirect") else "<indirect>")
-                            for st2 in b.blocks[j]["stmts"]:
-                                if st2["k"] == "assign" and not st2["place"]["p"]:
-                                    rv = st2["rv"]
-                                    ops = [rv.get("op")] + rv.get("ops", []) + ([{"place": rv["place"]}] if "place" in rv else [])
-                                    if any(isinstance(o, dict) and "place" in o and o["place"]["l"] == r for o in ops):
-                                        stack.append(st2["place"]["l"])
-    allowed = {"Argument::new_display", "Into::into", "ToString::to_string", "Display::fmt"}
-    bad = [s for s in sinks if s not in allowed and not s.startswith("Argument::new_display")]
-    if not sinks:
-        probs.append("the generated code is not emitted at all")
-    if bad:
-        probs.append("the generated code is passed through %s before being emitted" % sorted(set(bad)))
+            direct = any(a in toks or (a[0] in ("array", "tuple") and any(y in toks for y in a[1])) for a in t[2] if isinstance(a, tuple) and a)
+            if direct and last(t[1]) not in ("branch", "unwrap", "expect", "from_residual"):
+                sinks.append(short(t[1]))
+            if last(t[1]) in ("unwrap", "expect") and t[2] and t[2][0] == G:
+                toks = toks + (t,)
+        if leaf.ret is not None and any(s_ in toks and s_ != G for s_ in walk(leaf.ret)) and leaf.kind == "return":
+            sinks.append("<returned>")
+        allowed = {"Argument::new_display", "Into::into", "ToString::to_string", "Display::fmt", "<returned>", "From::from"}
+        bad = [s_ for s_ in sinks if s_ not in allowed and not s_.startswith("Argument::new_display")]
+        ok_leaf = semspec_ok(leaf, G)
+        if ok_leaf and not sinks:
+            probs.append("the generated code is not emitted at all")
+        if bad:
+            probs.append("the generated code is passed through %s before being emitted" % sorted(set(bad)))
+        sinks_all |= set(sinks)
+    if n_gen == 0:
+        probs.append("gen-calls: %s never calls CodegenGrammar::generate_code" % label)
     if probs:
-        for pr in probs:
-            chk.violation("C16.routes", "%s %s" % (label, pr.split(":")[0][:70]), pr, cx.site(b, gi))
+        for pr in sorted(set(probs)):
+            chk.violation("C16.routes", "%s %s" % (label, pr.split(":")[0][:70]), pr, cx.site(b))
     else:
-        chk.ok("C16.routes", label, {"route": label, "grammar": mir.show(recv)[:160], "emitted_via": sorted(set(sinks))})
-    return b, gt
+        chk.ok("C16.routes", label, {"route": label, "grammar": mir.show(shown)[:160] if shown is not None else None, "emitted_via": sorted(sinks_all), "paths": n_gen})
+    return b, None
+
+
+def semspec_ok(leaf, G):
+    """The path continues with a successfully generated token stream (not the error exit of generate_code)."""
+    k = leaf.facts.get(mir.mk("discr", G))
+    if k is None:
+        k = leaf.facts.get(mir.mk("discr", mir.mk("call", "std::ops::Try::branch", (G,), None, ())))
+    return k == 0 or k is None
 
 
 def check_routes(cx, chk):
@@ -317,28 +317,6 @@ def check_routes(cx, chk):
         check_route(cx, chk, cx.macro, lambda p: last(p) == "peginate", "macro peginate", text_is(from_lit))
     else:
         chk.anchor_missing("C16.routes", "peginator_macro crate")
-    # default settings: the macro and the cli start from Default::default()
-    for crate, fn, label in ((cx.macro, "peginate", "macro"), (cx.cli, "main_wrap", "cli")):
-        if crate is None:
-            continue
-        ps = [p for p in crate.fns if last(p) == fn and "mir" in crate.fns[p]]
-        if not ps:
-            continue
-        b = cx.body(crate, ps[0])
-        for i, t in b.calls():
-            if not t["func"].get("indirect") and last(t["func"]["path"]) == "generate_code" and "CodegenGrammar" in t["func"]["path"]:
-                s = norm(b.expr_op(t["args"][1]))
-                okd = False
-                if is_call(s, "default"):
-                    okd = True
-                if s[0] == "agg" and s[1].endswith("CodegenSettings"):
-                    d = dict(s[3])
-                    rest = [v for k, v in d.items() if k != "derives"]
-                    okd = all((v[0] == "field" and is_call(v[1], "default")) for v in rest)
-                if okd:
-                    chk.ok("C16.routes", label + " settings", {"route": label, "settings": mir.show(s)[:200]})
-                else:
-                    chk.violation("C16.routes", label + " settings", "%s does not generate with default settings (+derives override): %s" % (label, mir.show(s)[:200]), cx.site(b, i))
 
 
 def run(cx, chk):
